@@ -10,9 +10,18 @@ from contracts import c05 as _c05
 PROP = "C04"
 
 
+_building = False
+
+
 def contracts():
+    global _building
     from contracts import c03 as _c03
-    return [c for c in _c05.contracts() if c.name != "as_uninitialized.override_initialization"] + [_c03.call_watcher_contract()]
+    _building = True
+    try:
+        base = [c for c in _c05.contracts() if c.name != "as_uninitialized.override_initialization"]
+    finally:
+        _building = False
+    return base + [_c03.call_watcher_contract()]
 
 
 ASSUMPTIONS = _c05.ASSUMPTIONS
@@ -166,3 +175,81 @@ _c04_base = contracts
 
 def contracts():
     return _c04_base() + [flush_contract()]
+
+
+# ======================================================================================
+# Parameters.trigger
+# ======================================================================================
+def trigger_contract():
+    from contracts import c05 as _c05
+    holder = {}
+
+    def configure(I):
+        I.sym_fields = {"_autotrigger_value", "_mode", "_autotrigger_reset_value"}
+
+    def setup(I, st):
+        U = I.U
+        W = dm.World(I, st, initialized=Conc(True))
+        holder["W"] = W
+        st.pc.append(W.tr0.t == U.FALSE)           # trigger is not re-entered from inside a trigger
+        _c05.install_namespace_contracts(I, W)
+
+        def update(I, st2, fv, args, kwargs, ctx):
+            st2.ghost["update_calls"] = st2.ghost.get("update_calls", []) + [(W.tr(st2), W.bw(st2))]
+            # the batch of sets performed by update: whatever it leaves in the queues
+            e = I.alloc_list(st2, U.fresh_seq("upd_events"))
+            w = I.alloc_list(st2, U.fresh_seq("upd_watchers"))
+            I.dict_store(st2, W.state, Conc("events"), e)
+            I.dict_store(st2, W.state, Conc("watchers"), w)
+            st2.ghost["upd_ev"] = st2.heap[e.oid].seq
+            st2.ghost["upd_ws"] = st2.heap[w.oid].seq
+            q = st2.fork()
+            return [(st2, Sym(U.fresh("restorer"))), (q, Raise("$User", origin="update"))]
+        I.contracts["Parameters.update"] = update
+        name = Sym(U.fresh("param_name"))
+        fv = I.bound_method(W.param, I.src.find_method("Parameters", "trigger"))
+        return fv, [name], {}, {"W": W, "symbols": {"BATCH_WATCH0": W.bw0.t}}
+
+    def post(I, info, st, oc):
+        U = I.U
+        W = info["W"]
+        how = "raise" if isinstance(oc, Raise) else "return"
+        calls = st.ghost.get("update_calls", [])
+        out = []
+        if isinstance(oc, Raise) and not calls:
+            # failed before anything happened (unknown name): nothing may have changed
+            out.append(("early failure leaves the dispatch state untouched",
+                        z3.And(W.tr(st) == W.tr0.t, W.bw(st) == W.bw0.t)))
+            return out
+        out.append(("exit/TRIGGER-cleared[%s]" % how, W.tr(st) == U.FALSE))
+        out.append(("exit/BATCH_WATCH-untouched[%s]" % how, W.bw(st) == W.bw0.t))
+        out.append(("update runs exactly once, under the trigger flag",
+                    z3.And(z3.BoolVal(len(calls) == 1), calls[0][0] == U.TRUE) if calls else z3.BoolVal(False)))
+        ev, ws = W.ev_seq(st), W.ws_seq(st)
+        uev, uws = st.ghost.get("upd_ev"), st.ghost.get("upd_ws")
+        if ev is not None and uev is not None:
+            out.append(("exit/queued events: those parked before, then the triggered ones (chronological)[%s]" % how,
+                        ev == z3.Concat(W.ev_seq0, uev)))
+        else:
+            out.append(("exit/queued events preserved[%s]" % how, z3.BoolVal(False)))
+        if ws is not None:
+            out.append(("exit/watchers parked before the trigger are still queued first[%s]" % how, z3.PrefixOf(W.ws_seq0, ws)))
+            # no watcher is queued twice: an arbitrary element of the appended part is not among the parked ones
+            w = U.fresh("w")
+            pre, post_ = U.fresh_seq("apre"), U.fresh_seq("apost")
+            tail = U.fresh_seq("tail")
+            hyp = [ws == z3.Concat(W.ws_seq0, tail), tail == z3.Concat(pre, z3.Unit(w), post_)]
+            for f in I.U.__dict__.get("folds", {}).values():
+                hyp.append(f.sfn(z3.Concat(pre, z3.Unit(w), post_)) == z3.And(f.sfn(pre), f.pred(w), f.sfn(post_)))
+            out.append(("exit/no parked watcher is queued a second time[%s]" % how,
+                        z3.Implies(z3.And(hyp), z3.Not(z3.Contains(W.ws_seq0, z3.Unit(w))))))
+        return out
+    return FunctionContract("param.parameterized:Parameters.trigger", PROP, setup, post, configure=configure,
+                            name="Parameters.trigger")
+
+
+_c04_base2 = contracts
+
+
+def contracts():
+    return _c04_base2() + [trigger_contract()]
